@@ -222,6 +222,12 @@ def run_wiring(ctx):
                     sh = ex[3] if Bin("Shl")(ex[3]) else ex[2]
                     if Bin("Shl", S(Index(Local(1))), Bin("Shl", Any(), Lit(3)))(sh) and strip(sh[2])[2] == sh[3][2]:
                         asm = True
+                    # the same with `for (i, byte) in bytes[..N].iter().enumerate()`: byte = item.1, i = item.0 of one `next()`
+                    en = Field(Call("next"), name="0", variant="Some")
+                    if Bin("Shl", S(Field(en, name="1")), Bin("Shl", Field(en, name="0"), Lit(3)))(sh):
+                        b0, i0 = strip(sh[2]), sh[3][2]
+                        if b0[1] == i0[1]:
+                            asm = True
             req(ctx, rule, "%s:%s:little-endian" % (rule, f.id), asm, "int |= (bytes[i] as W) << (8*i)", "bytes are not assembled little-endian with byte i at bit 8*i", loc=f.loc)
             # conversions out
             outs = [x for x in prog.fns if x.name == "from" and re_out(x.id, fld)]
